@@ -1098,6 +1098,28 @@ theorem translated_fsm03_init_plain (p : Prims δ Du κ α ε χ η) (n : Option
         .next ()) :=
   init_plain_spec p n o dd evs hT hdd hnone hev
 
+/-- **`__init__`, `t_STATE=value`**: the instance works on ITS OWN copy of the default durations (the class's
+    dict is not modified), the value goes through `time_period`, the keyword is consumed before
+    `super().__init__` sees the rest -/
+theorem translated_fsm03_init_duration_is_own_copy (p : Prims δ Du κ α ε χ η) (n : Option κ)
+    (o : Obj δ Du κ α ε χ) (dd : List (String × List (String × String))) (evs : List ε) (ts arg : String)
+    (v : κ) (du : Du) (rest : List (String × κ))
+    (hT : o.typeIsFSM = false)
+    (hdd : sortArgs p (refContains o) o.ctPrefixes [] (o.kwargs.map (·.1)) = .ok dd)
+    (ht : ddget dd "t_" = [(ts, arg)])
+    (hnone : ∀ k, k ≠ "t_" → ddget dd k = [])
+    (hts : dhas o.ctDefaultDuration ts = true)
+    (hpop : dpop o.kwargs arg = .ok (v, rest))
+    (hper : p.timePeriodKw v = .ok (some du))
+    (hev : p.eventTuple n = .ok evs) :
+    (Gen.TrFT.init p n o).2 = .next () ∧
+    (Gen.TrFT.init p n o).1.duration = DurRef.own (dset o.ctDefaultDuration ts (some du)) ∧
+    (Gen.TrFT.init p n o).1.ctDefaultDuration = o.ctDefaultDuration ∧
+    (Gen.TrFT.init p n o).1.kwargs = rest ∧
+    (Gen.TrFT.init p n o).1.calls = o.calls ++ [Call.superInit rest
+      (if dhas rest "initdef" then o.initdefDefault else some o.ctDefaultState)] :=
+  init_one_duration_spec p n o dd evs ts arg v du rest hT hdd ht hnone hts hpop hper hev
+
 end tables
 
 end Edzed.TrTie
